@@ -474,6 +474,16 @@ def judge_step(v, A, B, R=None):
     band = 1e-3 * max(scales + [1.0])
     rtype = type(R).__name__
     sub.cls("result:" + rtype)
+    if rtype == "DifferenceRegion" and np.isfinite(oa.measure()):
+        # sampled by rejection from the first operand: when (by the oracle) less than 15% of it
+        # survives, the draws cost more than a history can afford -- not judged
+        try:
+            _, meas = cells.composed_partition(v["op"], oa, ob)
+        except cells.Unsupported:
+            meas = None
+        if meas is not None and meas.sum() < 0.15 * oa.measure():
+            sub.cls("history:not-sampled:low-acceptance")
+            return sub, R
     judge_continuous(v, cx, cell, base.height_feature(oa, ob), R, rtype, oa, ob, band)
     return sub, R
 
